@@ -1728,6 +1728,11 @@ class Executor:
             st.forced = None
             return None
         e = f[p]
+        if e[0] != kind and kind == 'b' and self.replay_values is None:
+            # the run that recorded this prefix had this branch outcome implied by a fact it had cached (no
+            # decision recorded); decide it again with the solver instead of consuming a recorded entry
+            self.stats.resyncs += 1
+            return None
         st.fpos = p + 1
         if e[0] != kind:
             raise MachineryError('replay diverged: expected %s decision, recorded %r' % (kind, e))
